@@ -305,6 +305,8 @@ M05(L) ==
   /\ A05(L) =>
        LET R == L.last IN
        /\ (L.tk[R.e.tok].incomplete \/ (R.e.bodyok = 1 /\ R.e.bodyerr = 0))
+       \* a body the origin could not deliver completely ends in a read error for the client, never in a clean end of stream
+       /\ (L.tk[R.e.tok].incomplete /\ R.ownTok => R.e.bodyerr = 1 \/ R.e.bodyok = 1)
        /\ R.e.hopin = 0
        /\ (R.fromStore => R.e.e2eok = 1 /\ R.e.stsame = 1 /\ R.e.h.unk = 0)
   /\ (IsOp(L) /\ L.last.e.kind = "set" => L.last.e.hop = 0)
@@ -359,10 +361,14 @@ M10(L) ==
   /\ (IsRet(L) =>
         LET R == L.last IN
         /\ R.e.panic = 0 /\ R.e.neither = 0 /\ R.e.both = 0
+        \* the client receives its correct response: the origin's body, or the read error that cut it short
+        /\ (R.resp /\ R.ownTok /\ R.e.tok \in DOMAIN L.tk => R.e.bodyok = 1 \/ R.e.bodyerr = 1 \/ R.rq.m = "HEAD")
         /\ (R.e.err = 1 => Len(R.fg) > 0 /\ Failed(R.fg[Len(R.fg)]))
         /\ (R.o.hard = 1 /\ R.resp /\ R.rq.m = "GET" /\ ~Has(R.rq, "only-if-cached") =>
               (R.ownTok \/ R.ownTag \/ R.fromStore) /\ (R.ownTok => R.e.bodyok = 1)))
   /\ L.last.kind # "crash"
+  \* nor does the work a round trip leaves behind hang: no goroutine of the transport is left when everything has timed out
+  /\ (IsEnd(L) => L.last.e.leak_at_horizon = 0)
   \* behaviour is the same with logging enabled (the discard-logger run of the real code is the oracle)
   /\ (AGrp(L) /\ L.gk = "log" => L.obsq = L.canon)
 
@@ -431,6 +437,8 @@ M16(L) ==
   /\ (IsRet(L) /\ L.hadconc /\ (L.last.fromStore \/ L.last.ownTok) =>
         (L.tk[L.last.e.tok].incomplete \/ (L.last.e.bodyok = 1 /\ L.last.e.bodyerr = 0)) /\ L.last.e.stsame = 1)
   /\ (IsRet(L) => L.last.e.requnch = 1)
+  \* a reply never shows what the caller of ANOTHER reply wrote into that reply's header after it had been returned
+  /\ (IsRet(L) => L.last.e.scrib = 0)
   \* the request belongs to the caller again after the return: what the origin is sent is what the caller passed
   \* then, not what it made of its request object later
   /\ (IsCall(L) => L.last.c.hsame = 1 /\ L.last.c.usame = 1)
